@@ -773,6 +773,15 @@ class Oracle(stateful.Stateful):
                 f"project at: {self._project_dir}"
             ) from e
 
+        # A trial file whose id is not in `start_order` was left behind by a
+        # `create_trial` call that did not complete (the process died before
+        # `oracle.json` was written): that trial was never handed out.
+        self.trials = {
+            trial_id: trial
+            for trial_id, trial in self.trials.items()
+            if trial_id in self.start_order
+        }
+
         # Empty the ongoing_trials and send them for retry. The state may have
         # been saved by `end_trial` while the ended trial was still listed as
         # ongoing: a trial that already ended, or that is already waiting for
